@@ -463,13 +463,10 @@ def run(prog, check):
                      'a second run skips what the first one marked as done' % A, 'a second SolveEquation() on the same solver')
 
     nid = 0
-    for f in prog.all_functions():
-        for x in ast.walk(f.node):
-            if isinstance(x, ast.Attribute) and x.attr == 'ID' and isinstance(x.ctx, ast.Load):
-                kind, ok = classify_id_use(x, f)
-                nid += 1
-                check.ob('C17.R5', '%s::ID-use(%s)' % (f.key, kind), ok, '%s:%d' % (f.module.rel, x.lineno),
-                         'object counter used for ' + kind, 'the same model built after another model in the same process')
+    for f, x, kind, ok in id_uses(prog):
+        nid += 1
+        check.ob('C17.R5', '%s::ID-use(%s)' % (f.key, kind), ok, '%s:%d' % (f.module.rel, x.lineno),
+                 'object counter used for ' + kind, 'the same model built after another model in the same process')
     # ---- R3 (cont.): a message is only treated as a format template when data came with it ---------------------------
     LG = prog.classes.get('Logger')
     lg_init = LG.methods.get('__init__') if LG else None
@@ -547,7 +544,45 @@ def _block_key(ifnode):
     return ','.join(calls)[:60]
 
 
-def classify_id_use(x, f):
+def id_uses(prog):
+    """every read of an object counter `.ID` in the package -> (function, node, kind, ok).  Functions are read with their private
+    helpers in place (a counter handed out by a private static helper is judged where the value ends up); a read that only copies
+    the counter into a local is judged by the uses of that local."""
+    from ..inline import flatten, judged_at_callers
+    funcs = list(prog.all_functions())
+    skip = judged_at_callers(prog, funcs)
+    seen = set()
+    for f_raw in funcs:
+        if f_raw.key in skip:
+            continue
+        f = flatten(prog, f_raw)
+        for x in ast.walk(f.node):
+            if isinstance(x, ast.Attribute) and x.attr == 'ID' and isinstance(x.ctx, ast.Load):
+                kind, ok = classify_id_use(x, f)
+                k = (f_raw.key, getattr(x, 'lineno', 0), kind)
+                if k in seen:
+                    continue
+                seen.add(k)
+                yield f_raw, x, kind, ok
+
+
+def classify_id_use(x, f, depth=0):
+    p = getattr(x, '_parent', None)
+    st0 = p
+    while st0 is not None and not isinstance(st0, ast.stmt):
+        st0 = getattr(st0, '_parent', None)
+    if depth < 3 and isinstance(st0, ast.Assign) and st0.value is x and len(st0.targets) == 1 and isinstance(st0.targets[0], ast.Name):
+        # next_id = EconomicObject.ID: the local stands for the counter value; judged by what is done with it
+        nm = st0.targets[0].id
+        uses = [n for n in ast.walk(f.node) if isinstance(n, ast.Name) and n.id == nm and isinstance(n.ctx, ast.Load)]
+        others = [n for n in ast.walk(f.node) if isinstance(n, ast.Name) and n.id == nm and isinstance(n.ctx, ast.Store) and
+                  n is not st0.targets[0]]
+        if uses and not others:
+            res = [classify_id_use(u, f, depth + 1) for u in uses]
+            bad = [r for r in res if not r[1]]
+            if bad:
+                return bad[0]
+            return 'counter copied to `%s`: %s' % (nm, ', '.join(sorted({r[0] for r in res}))[:80]), True
     p = getattr(x, '_parent', None)
     chain = []
     while p is not None and not isinstance(p, ast.stmt):
